@@ -565,6 +565,7 @@ def random_project2(rng: random.Random) -> Dict[str, Any]:
         mods.append(mod("r2", 0, pkg=True)); pk.append(len(mods))
     pool = ["A", "B", "C", "D", "E", "F", "G", "H"]
     defs: List[Tuple[int, str, str]] = []          # (module index, name, kind)
+    nobase: set = set()                            # (module index, name) of classes written without bases
     cyclic = False
     nmods = rng.randint(2, 4)
     plan: List[Tuple[int, int]] = []
@@ -573,6 +574,7 @@ def random_project2(rng: random.Random) -> Dict[str, Any]:
     for i, (mi, par) in enumerate(plan):
         ops: List[Any] = []
         local: Dict[str, str] = {}                  # local (possibly dotted) name -> kind
+        local_nobase: set = set()                   # local names known to denote a class without bases
         my_pkg_path = _path(mods, par)
         def rel(target_mi: int) -> Optional[Tuple[int, str]]:
             tp = _path(mods, target_mi)
@@ -594,6 +596,7 @@ def random_project2(rng: random.Random) -> Dict[str, Any]:
             # by the deterministic families T5 / T15; the random corpus mixes everything else
             def free(n: str) -> bool:
                 return n.split(".")[0] not in {x.split(".")[0] for x in local}
+            before = set(local)
             if form == "from_rel" and r and free(dn):
                 ops.append(frm(r[1], dn, lvl=r[0])); local[dn] = dk
             elif form == "from_pkg" and r and free(r[1]):
@@ -612,13 +615,20 @@ def random_project2(rng: random.Random) -> Dict[str, Any]:
                         local[n2] = k2
             elif form in ("from",) and free(dn):
                 ops.append(frm(path, dn)); local[dn] = dk
+            for n_new in set(local) - before:
+                if (dm, n_new.split(".")[-1]) in nobase:
+                    local_nobase.add(n_new)
         mine: List[Tuple[str, str]] = []
         for _ in range(rng.randint(1, 3)):
             kind = rng.choice(["class", "class", "class", "def", "var", "alias"])
             name = rng.choice([n for n in pool if n.split(".")[0] not in {x.split(".")[0] for x in local}] or ["Z%d" % len(ops)])
             classes = [n for n, k in local.items() if k == "class"]
             if kind == "class":
+                # a second base only if it is written without bases itself, and last: Python accepts the hierarchy
                 bases = rng.sample(classes, k=min(len(classes), rng.choice([0, 1, 1, 2])))
+                if len(bases) == 2:
+                    roots_ = [b for b in bases if b in local_nobase]
+                    bases = ([b for b in bases if b not in roots_[-1:]] + roots_[-1:]) if roots_ else bases[:1]
                 body: List[Any] = []
                 if rng.random() < 0.5:
                     body.append(fn(rng.choice(["f", "g"])))
@@ -632,6 +642,8 @@ def random_project2(rng: random.Random) -> Dict[str, Any]:
                         body.insert(0, frm(".".join(_path(mods, dm)), dn, "L" + dn))
                 ops.extend(cls(name, *bases, body=body))
                 local[name] = "class"
+                if not bases:
+                    local_nobase.add(name); nobase.add((mi, name))
                 if any(isinstance(b, dict) and b.get("k") == "class" for b in body):
                     local[name + ".In"] = "class"
                 mine.append((name, "class"))
